@@ -171,13 +171,12 @@ func ReadFile(r Reader, out interface{}, cb func(val unsafe.Pointer, rb *Resourc
 		if err != nil {
 			return fmt.Errorf("reading data block length. %w", err)
 		}
-		if cap(compressed) < int(dataLength) {
-			compressed = make([]byte, dataLength)
-		} else {
-			compressed = compressed[:dataLength]
+		if dataLength < 0 {
+			return fmt.Errorf("negative data block length %d", dataLength)
 		}
-		if n, err := io.ReadFull(r, compressed); err != nil {
-			return fmt.Errorf("reading %d bytes of compressed data: %w after %d bytes", dataLength, err, n)
+		compressed, err = readN(r, compressed[:0], dataLength)
+		if err != nil {
+			return fmt.Errorf("reading %d bytes of compressed data: %w after %d bytes", dataLength, err, len(compressed))
 		}
 		uncompressed, err := decoder.decompress(compressed)
 		if err != nil {
@@ -261,9 +260,32 @@ func readBytes(r Reader) ([]byte, error) {
 	if err != nil {
 		return nil, err
 	}
-	v := make([]byte, l)
-	_, err = io.ReadFull(r, v)
-	return v, err
+	if l < 0 {
+		return nil, fmt.Errorf("negative length %d", l)
+	}
+	return readN(r, nil, l)
+}
+
+// readN appends n bytes read from r to buf. The buffer grows as the data
+// arrives rather than being sized from n up front, so a corrupt length cannot
+// cause a huge allocation.
+func readN(r io.Reader, buf []byte, n int64) ([]byte, error) {
+	const chunk = 1 << 16
+	for n > 0 {
+		c := int(min(n, chunk))
+		l := len(buf)
+		if cap(buf)-l < c {
+			buf = append(buf, make([]byte, c)...)
+		} else {
+			buf = buf[:l+c]
+		}
+		m, err := io.ReadFull(r, buf[l:])
+		if err != nil {
+			return buf[:l+m], err
+		}
+		n -= int64(c)
+	}
+	return buf, nil
 }
 
 func (fh FileHeader) schema() (schema Schema, err error) {
